@@ -1001,7 +1001,13 @@ impl Manager for Mgr {
         let id = obj.id;
         trace!("  detach object {}", id);
         check_not_under_pool_lock("Manager::detach");
+        let who = who();
         let _ = try_w(|w| {
+            // "the pool invokes the manager ... only from inside get(), retain(),
+            // take(), resize(), close() or the return of an object"
+            if !w.ops.contains_key(&who) {
+                w.violate(&["C08"], "detach-outside-operation", format!("Manager::detach(object {}) invoked while caller {} was in no pool operation", id, who));
+            }
             w.objs[id].detach += 1;
             if w.objs[id].detach > 1 {
                 w.violate(&["C09"], "detach-twice", format!("Manager::detach called {} times for object {}", w.objs[id].detach, id));
